@@ -34,6 +34,7 @@ def periodogram_method_task(datatype):
         dom = tc.smt()
         I = tc.interp(stubs=funcs.refined_stubs(dom))
         hints = {"cls": "Periodogram", "datatype": datatype}
+        tc.native = ("place", hints)
 
         def thunk(I):
             o, sh = model.make_state(I, dom, "Periodogram", datatype, cache="none")
